@@ -20,8 +20,8 @@ SPEC = {
         "user computations terminate (OneShot: ComputeFinish is always enabled while computing); Go scheduler fairness",
     ],
     "manifest": {
-        "text": "Coq theorems (Props/C15.v): the repaired conversion of graphql-go's AST never crashes for any AST and variable map and any Go map order (the original does: witness); detectConflicts and PrepareQuery of the original code need >= 2^n visits on a family of 3n+3 nodes (refutation of polynomial cost, by induction); the repaired detectConflicts makes at most 1 + (nodes of the query) visits for every document; Flatten and PrepareQuery cannot crash on any query Parse returned (the original Flatten can: witness accepted by PrepareQuery); a panicking resolver changes nothing but its own request in the connection model; in the LTS of the one-shot handlers the original has a reachable dead state (cancelled before the first run), the repaired one has no reachable deadlock and a decreasing measure. On every run the model is evaluated on graphql-go's real ASTs of generated documents and compared with graphql.Parse / Flatten / hook visit counts, and the oracle (no panic or process death, visits <= 64*nodes, failing request gets exactly one sanitised error while other subscriptions keep updating, cancelled requests return within 2 s, goroutines back to baseline) runs on six input streams with every case in a child process.",
-        "note": "Trusted: Coq kernel + vm_compute; the hand-written models (Conn/OneShot tied to the code by oracle scripts only); graphql-go's parser and strconv as third-party; the harness. Measured not proved: wall-clock promptness, goroutine counts. Not modelled: argument parsers (C18), directive semantics in Flatten (C19), executor internals (C01/C16). The polynomial upper bound after the repair is proved for detectConflicts (linear); for the memoised PrepareQuery it is NOT proved, only checked by the oracle (calls <= 64*nodes on the bomb families and every generated query).",
+        "text": "Coq theorems (Props/C15.v): the repaired conversion of graphql-go's AST never crashes for any AST and variable map and any Go map order (the original does: witness); detectConflicts and PrepareQuery of the original code need >= 2^n visits on a family of 3n+3 nodes (refutation of polynomial cost, by induction); the repaired detectConflicts makes at most 1 + (nodes of the query) visits for every document and the memoised PrepareQuery at most K*(1 + |selection| + |types|*|fragments|) calls; Flatten and PrepareQuery cannot crash on any query Parse returned (the original Flatten can: witness accepted by PrepareQuery); a panicking resolver changes nothing but its own request in the connection model; in the LTS of the one-shot handlers the original has a reachable dead state (cancelled before the first run), the repaired one has no reachable deadlock and a decreasing measure. On every run the model is evaluated on graphql-go's real ASTs of generated documents and compared with graphql.Parse / Flatten / hook visit counts, and the oracle (no panic or process death, visits <= 64*nodes, failing request gets exactly one sanitised error while other subscriptions keep updating, cancelled requests return within 2 s, goroutines back to baseline) runs on six input streams with every case in a child process.",
+        "note": "Trusted: Coq kernel + vm_compute; the hand-written models (Conn/OneShot tied to the code by oracle scripts only); graphql-go's parser and strconv as third-party; the harness. Measured not proved: wall-clock promptness, goroutine counts. Not modelled: argument parsers (C18), directive semantics in Flatten (C19), executor internals (C01/C16). The polynomial upper bounds after the repair are proved for detectConflicts (visits <= 1 + nodes) and for the memoised PrepareQuery (calls <= K*(1 + |selection| + |types|*|fragments|)); the oracle additionally checks visits <= 64*nodes on the bomb families.",
         "technique": "Coq proof over executable model (functions + small LTS) + differential correspondence on real ASTs (vm_compute) + property oracle with process isolation, hook visit counters, scripted cancellation",
     },
 }
